@@ -245,8 +245,11 @@ def _factor_long_intermediate(expr: e.Expr, itmd: list[EriOrbenergy],
                 # a contracted itmd index must neither appear in the
                 # remainder nor be a target index of the term
                 # -> the variant is not valid
+                # additionally, a contracted itmd index can not be equal to
+                # any of the (target) indices of the itmd tensor
                 remainder_indices = set(remainder.idx)
                 remainder_indices.update(term.eri.target)
+                remainder_indices.update(itmd_indices)
                 if any(s in remainder_indices
                        for s in contracted_itmd_indices):
                     continue
@@ -442,6 +445,10 @@ def _factor_short_intermediate(expr: e.Expr, itmd: EriOrbenergy,
                     _get_remainder(term, var['eri_i'], var['denom_i']).idx
                 )
                 forbidden.update(term.eri.target)
+                # a contracted itmd index can also not be equal to any of
+                # the (target) indices of the itmd tensor
+                forbidden.update(var['sub'].get(s, s)
+                                 for s in itmd_default_symbols)
                 if not any(var['sub'].get(s, s) in forbidden
                            for s in itmd_contracted_symbols):
                     valid_variants.append(var)
